@@ -15,7 +15,7 @@ import uuid as _uuid
 
 from .interp_base import *  # noqa: F401,F403
 from .interp_base import Limit, Raised, Run, _ids
-from .interp_core import NONETYPE, is_concrete
+from .interp_core import NONETYPE, is_concrete, Frame
 
 import re as _re
 
@@ -976,6 +976,45 @@ class LibMixin:
             return a[0]
         return LibFn.get("identity")
 
+    def lib_contextlib_contextmanager(self, a, kw, run, node):
+        """@contextmanager: calling the decorated generator function gives a manager whose __enter__ runs the body up to its single
+        top-level `yield` (plain, or the only statement of a try body) and whose __exit__ runs what follows (the finally block)."""
+        f = a[0]
+        if not isinstance(f, FuncV):
+            self.limit("contextmanager applied to something else than a function", node)
+        return WrapV("contextmanager", f)
+
+    def call_contextmanager(self, f, args, kwargs, run, node):
+        body = list(f.node.body)
+        if body and isinstance(body[0], ast.Expr) and isinstance(getattr(body[0], "value", None), ast.Constant) and isinstance(body[0].value.value, str):
+            body = body[1:]
+        pre, post, yexpr, found = [], [], None, False
+        for i, st in enumerate(body):
+            if isinstance(st, ast.Expr) and isinstance(st.value, ast.Yield):
+                pre, yexpr, post, found = body[:i], st.value.value, body[i + 1:], True
+                break
+            if isinstance(st, ast.Try) and len(st.body) == 1 and isinstance(st.body[0], ast.Expr) and isinstance(st.body[0].value, ast.Yield) \
+                    and not st.handlers and not st.orelse:
+                pre, yexpr, post, found = body[:i], st.body[0].value.value, list(st.finalbody) + body[i + 1:], True
+                break
+            if any(isinstance(x, (ast.Yield, ast.YieldFrom)) for x in ast.walk(st)):
+                break
+        if not found:
+            self.limit(f"context manager {f.ref}: the yield is not a top-level statement (or the only statement of a try/finally)", node)
+        # bind the arguments as a call would, then run the part before the yield
+        env = self.bind_args(f, args, kwargs, run, node)
+        self.frames.append(Frame(f, f.module))
+        try:
+            self.exec_block(pre, env, run)
+            val = self.ev(yexpr, env, run) if yexpr is not None else None
+        finally:
+            self.frames.pop()
+        m = CtxMgrV("generator", val)
+        m_exit = (f, env, post)
+        self._cm_exits = getattr(self, "_cm_exits", {})
+        self._cm_exits[id(m)] = (m, m_exit)
+        return m
+
     def lib_contextlib_closing(self, a, kw, run, node):
         return CtxMgrV("closing", a[0])
 
@@ -1352,6 +1391,15 @@ class LibMixin:
         elif isinstance(m, CtxMgrV) and m.kind == "closing" and isinstance(m.inner, StreamV):
             m.inner.closed = True
             run.emit("close", m.inner, self.site(node))
+        elif isinstance(m, CtxMgrV) and m.kind == "generator":
+            ent = getattr(self, "_cm_exits", {}).pop(id(m), None)
+            if ent is not None:
+                f, env, post = ent[1]
+                self.frames.append(Frame(f, f.module))
+                try:
+                    self.exec_block(post, env, run)
+                finally:
+                    self.frames.pop()
 
     # concrete operators ----------------------------------------------------------------
     def binop(self, op, a, b, run, node):
